@@ -30,6 +30,22 @@ Theorem C03_coefficient_truncation_bounds : forall ann x d b c, sy_coeffs ann x 
   ann * (b - x) <= d < ann * (b - x + 1).
 Proof. exact sy_coeffs_bounds. Qed.
 
+(* the same at pool level: for EVERY state of the pair (hence after any history of swap/provide/withdraw/collect by any users) a
+   successful Swap pays proceeds + fees = reported ask reserve - y with 0 <= y, moves the reported reserves by exactly
+   (+offer, -(curve output - swap fee)) and never leaves a negative reserve *)
+Theorem C03_pool_swap_spec : forall p i x ms p' e, swap2 p i x ms = Ok (p', e) -> 0 <= get2 (1 - i) (q_dec p) <= 18 ->
+  0 <= f_swap (q_fees p) -> 0 <= f_protocol (q_fees p) -> 0 <= f_burn (q_fees p) ->
+  let j := 1 - i in
+  let R := fun q t => get2 t (q_bal q) - get2 t (q_fee q) in
+  (i = 0 \/ i = 1) /\
+  exists s y, compute_swap_stable (R p i) (R p j) x (q_fees p) (q_amp p) (get2 i (q_dec p)) (get2 j (q_dec p)) = Ok s /\
+    0 <= y <= R p j /\
+    s_ret s + s_swapfee s + s_protfee s + s_burnfee s = R p j - y /\
+    get2 j (f_user e) = s_ret s /\ get2 i (f_user e) = - x /\
+    0 <= s_ret s /\ 0 <= s_swapfee s /\ 0 <= s_protfee s /\ 0 <= s_burnfee s /\
+    R p' j = y + s_swapfee s /\ R p' i = R p i + x.
+Proof. exact pool2_swap_spec. Qed.
+
 (* ================= deposits ================= *)
 
 (* a deposit never mints more LP than the proportional increase of the invariant THE CODE COMPUTES (on raw amounts):
@@ -67,10 +83,17 @@ Qed.
    (c) Dtrue vs Dcode after a fall-through of the 256-round loop of compute_d. *)
 
 (* non-vacuity *)
+Definition f_user_of (r : outcome eff2) : option (Z * Z) := match r with Ok e => Some (f_user e) | _ => None end.
 Example C03_swap_nonvacuous :
   compute_swap_stable 1000000000 1000000000000000000000 1000000 (mkFees 1000000000000000 3000000000000000 0) 100 6 18
     = Ok (mkSwap 995990138701831106 9900901775998 2999970297294672 999990099098224 0).
 Proof. vm_compute. reflexivity. Qed.
+Example C03_pool_nonvacuous :
+  let p0 := init_pool2 100 (6, 18) (mkFees 0 0 0) (false, false) 4 in
+  let l := [Provide2 0 (1000000000, 1000000000000000000000); Provide2 1 (1, 1000000000000000000000); Withdraw2 1 545220542154377485] in
+  f_user_of (snd (apply_op2 (run2 p0 [Provide2 0 (1000000000, 1000000000000000000000); Provide2 1 (1, 1000000000000000000000)]) (Withdraw2 1 545220542154377485)))
+    = Some (370079499, 740158997707393378000) /\ q_supply (run2 p0 l) = c03_w_supply.
+Proof. vm_compute. split; reflexivity. Qed.
 Example C03_mint_nonvacuous :
   compute_mint2 100 1 1000000000000000000000 1000000000 1000000000000000000000 c03_w_supply = Ok 545220542154377485.
 Proof. vm_compute. reflexivity. Qed.
@@ -78,5 +101,6 @@ Proof. vm_compute. reflexivity. Qed.
 Print Assumptions C03_swap_proceeds_le_reserve_fee_identity_newton_post.
 Print Assumptions C03_newton_y_post.
 Print Assumptions C03_coefficient_truncation_bounds.
+Print Assumptions C03_pool_swap_spec.
 Print Assumptions C03_deposit_Dcode_per_lp_monotone.
 Print Assumptions C03_refuted_lp_mint_raw_decimals.
